@@ -57,6 +57,27 @@ func TestSweep(t *testing.T) {
 			}
 		}
 	}
+	// two writers whose windows meet exactly at the end of a buffer that ends in a partial frame: one
+	// owns the partial frame, the other the spare capacity behind it
+	for ti, tn := range Types {
+		for _, C := range []int{2, 3, 5} {
+			for partial := 1; partial < C; partial += 2 {
+				F := 9 + ti
+				c := &Case{T: tn, C: C, F: F, RO: 2, Partial: partial, Procs: 8, Repeat: rep}
+				c.Bounds = []int{2, F + 1, F + spareFrames(c)}
+				for w := 0; w < 2; w++ {
+					var s []int
+					for k := 0; k < 3*nWriteOps; k++ {
+						s = append(s, (k+w)%nWriteOps)
+					}
+					c.Writers = append(c.Writers, s)
+				}
+				c.Readers = [][]int{{0, 1, 3, 5, 9, 10}, {5, 4, 1, 6, 7, 8}}
+				c.Yield = []int{0x55, 0xaa, 0x33, 0xcc}
+				Oracle.One(t, env, rec, "sweep", c)
+			}
+		}
+	}
 	// long buffers (more than 65536 samples) read by many goroutines at once, mostly as conversion sources
 	long := []string{"float64", "float32", "int16"}
 	if env.Thorough() {
@@ -103,6 +124,25 @@ func TestFirstUse(t *testing.T) {
 	}
 	c := &Case{T: tn, C: C, F: F, RO: F, Bounds: []int{F}, Procs: 16, Repeat: 1}
 	shared := fill(c) // Alloc + SetSample only: no conversion or other entry point has run in this process yet
+	// Every goroutine converts the shared buffer into a private destination of every partner type, in
+	// a rotated order. The destinations are allocated before the start and nothing but the conversions
+	// runs between the start barrier and the last of them: formatting and allocation go through
+	// synchronised pools of the runtime and would order the goroutines, hiding a racy first use.
+	P := len(partners)
+	dsts := make([][]kit.AnyBuf, G)
+	counts := make([][]int, G)
+	for g := range dsts {
+		counts[g] = make([]int, P)
+		for k := 0; k < P; k++ {
+			dsts[g] = append(dsts[g], kit.AllocAny(partners[(g*5+k)%P], signal.Allocator{Channels: C, Length: F, Capacity: F}))
+		}
+	}
+	convs := make([][]*convtab.Entry, G)
+	for g := range convs {
+		for k := 0; k < P; k++ {
+			convs[g] = append(convs[g], convtab.Lookup(tn, partners[(g*5+k)%P]))
+		}
+	}
 	results := make([][]string, G)
 	start := make(chan struct{})
 	var wg sync.WaitGroup
@@ -111,13 +151,10 @@ func TestFirstUse(t *testing.T) {
 		go func(g int) {
 			defer wg.Done()
 			<-start
-			// conversions into private destinations of several types first, then every other read-only entry point
-			for k := 0; k < 3; k++ {
-				p := partners[(g+k*5)%len(partners)]
-				dst := kit.AllocAny(p, signal.Allocator{Channels: C, Length: F, Capacity: F})
-				n := convtab.Lookup(tn, p).Convert(shared, dst)
-				results[g] = append(results[g], fmt.Sprint(p, n, dst.Snap()))
+			for k, e := range convs[g] {
+				counts[g][k] = e.Convert(shared, dsts[g][k])
 			}
+			// then every other read-only entry point
 			for code := 0; code < nReadOps; code++ {
 				results[g] = append(results[g], readStep(c, shared, code, 0, code))
 			}
@@ -127,22 +164,24 @@ func TestFirstUse(t *testing.T) {
 	wg.Wait()
 	// sequential reference afterwards
 	for g := 0; g < G; g++ {
-		var want []string
-		for k := 0; k < 3; k++ {
-			p := partners[(g+k*5)%len(partners)]
+		var got, want []string
+		for k := 0; k < P; k++ {
+			p := partners[(g*5+k)%P]
+			got = append(got, fmt.Sprint(p, counts[g][k], dsts[g][k].Snap()))
 			dst := kit.AllocAny(p, signal.Allocator{Channels: C, Length: F, Capacity: F})
 			n := convtab.Lookup(tn, p).Convert(shared, dst)
 			want = append(want, fmt.Sprint(p, n, dst.Snap()))
 		}
+		got = append(got, results[g]...)
 		for code := 0; code < nReadOps; code++ {
 			want = append(want, readStep(c, shared, code, 0, code))
 		}
 		for i := range want {
-			if results[g][i] != want[i] {
-				kit.Fail(t, env, "firstuse", c, fmt.Sprintf("first concurrent use of a %s buffer: goroutine %d step %d saw %.80s, sequentially %.80s", tn, g, i, results[g][i], want[i]))
+			if got[i] != want[i] {
+				kit.Fail(t, env, "firstuse", c, fmt.Sprintf("first concurrent use of a %s buffer: goroutine %d step %d saw %.80s, sequentially %.80s", tn, g, i, got[i], want[i]))
 			}
 		}
 	}
-	rec.Bulk("firstConcurrentUse:"+tn, int64(G*(3+nReadOps)), int64(G*(3+nReadOps)))
-	rec.Sample(map[string]any{"type": tn, "goroutines": G, "what": "first library calls of a fresh process: 3 conversions into private destinations and every read-only entry point, from 8 goroutines at once"})
+	rec.Bulk("firstConcurrentUse:"+tn, int64(G*(P+nReadOps)), int64(G*(P+nReadOps)))
+	rec.Sample(map[string]any{"type": tn, "goroutines": G, "what": "first library calls of a fresh process: conversions into private destinations of every partner type (pre-allocated, nothing else in between) and every read-only entry point, from 8 goroutines at once"})
 }
